@@ -914,6 +914,7 @@ func c19EndToEnd(j *Job) {
 	modes := stdModes()
 	// an expiry of the retransmission timer against the acknowledgement that stops it
 	for _, mode := range modes[:2] {
+		j.Explore(fmt.Sprintf("VE/%s", mode.Name), validExpiryScenario(withBase(mode.A, 1191, 0xFFFFFFFC, 4000), withBase(mode.B, 1191, 3, 4000)), Budget{D: 1}, nil)
 		for _, withY := range []bool{false, true} {
 			j.Explore(fmt.Sprintf("SE/%s/y%v", mode.Name, withY), staleExpiryScenario(withBase(mode.A, 1191, 0xFFFFFFFC, 4000), withBase(mode.B, 1191, 3, 4000), withY), Budget{D: 1}, nil)
 		}
@@ -1054,6 +1055,96 @@ func (l *t3Log) Debugf(f string, args ...any) {
 // on the expiry only while that run of the timer is still the current one: an expiry decided
 // before the acknowledgement stopped (or restarted) the timer must not be applied afterwards.
 // withY: the application writes another message at the same instant.
+// validExpiryScenario: the mirror image of the stale expiry.  Two messages leave at the same
+// instant, the first is lost; the SACK that reports the second one alone (no cumulative
+// progress: the timer is neither stopped nor restarted, only "started" again, which is a no-op
+// on a running timer) reaches the sender at the very instant T3-rtx expires.  Whichever is
+// handled first, this expiry belongs to the current run of the timer and must be acted upon:
+// the lost message is retransmitted now, not one back-off period later.
+func validExpiryScenario(a, b epCfg) *Scenario {
+	return &Scenario{
+		Name:    "valid-expiry",
+		Horizon: 60 * time.Second,
+		Setup: func(m *Sim) {
+			m.S.SuspendTimers = true
+			m.S.SuspendTimersLate = true
+		},
+		Body: func(m *Sim) {
+			if !m.Connect(a, b) {
+				m.Failf("connect", "handshake failed: %v %v", m.Err[0], m.Err[1])
+				m.closeFailedTransports()
+				m.CloseBoth()
+				return
+			}
+			A := m.As[0]
+			sa, _ := A.OpenStream(1, PayloadTypeWebRTCBinary)
+			sb, _ := m.As[1].OpenStream(1, PayloadTypeWebRTCBinary)
+			m.streamsSeen = append(m.streamsSeen, sa, sb)
+			rd := m.Go("readB", func() {
+				buf := make([]byte, 2000)
+				for {
+					if _, _, err := sb.ReadSCTP(buf); err != nil {
+						return
+					}
+				}
+			})
+			m.Sleep(3 * time.Second)
+			t0 := m.S.Now()
+			var due time.Duration
+			armed, nData := false, 0
+			// of A's data packets only the second one (the first transmission of the second message)
+			// gets through before the expiry: the first message, the tail-loss probe and whatever
+			// the loss detectors resend meanwhile are lost, so that no other SACK comes back
+			m.W.killFn = func(p *wpkt) bool {
+				if p.from != 0 || p.dec == nil || (due != 0 && m.S.Now() > due) {
+					return false
+				}
+				for _, c := range p.dec.Chunks {
+					if c.Typ == wDATA || c.Typ == wIDATA {
+						nData++
+						return nData != 2
+					}
+				}
+				return false
+			}
+			m.W.delayFn = func(p *wpkt) time.Duration {
+				if !armed || p.from != 1 || p.dec == nil {
+					return 0
+				}
+				for _, c := range p.dec.Chunks {
+					if c.Typ == wSACK {
+						armed = false
+						if d := due - (m.S.Now() + m.W.delay[1]); d > 0 {
+							return d
+						}
+					}
+				}
+				return 0
+			}
+			_, _ = sa.WriteSCTP(payload(1, 0, 40), PayloadTypeWebRTCBinary)
+			if !m.WaitUntil("x-sent", 5*time.Second, func() bool { return A.t3RTX.state == rtxTimerStarted }) || m.S.Now() != t0 {
+				m.Observe("not-at-once")
+				m.CloseBoth()
+				m.Join(rd)
+				return
+			}
+			due = t0 + time.Duration(A.t3RTX.rto)*time.Millisecond
+			armed = true
+			_, _ = sa.WriteSCTP(payload(1, 1, 41), PayloadTypeWebRTCBinary)
+			m.Sleep(due - m.S.Now() + 300*time.Millisecond)
+			t := A.t3RTX
+			if t.state == rtxTimerStarted && t.nRtos >= 1 && A.stats.getNumT3Timeouts() == 0 {
+				m.Failf("timer.expiry-dropped", "T3-rtx expired (the timer counts %d expiries of its current run, it was neither stopped nor restarted) %v ago, but the association has not acted on it: no retransmission of the lost chunk, the next chance is a whole back-off period away", t.nRtos, m.S.Now()-due)
+			}
+			m.Sleep(8 * time.Second)
+			m.Observe("t3=%d", A.stats.getNumT3Timeouts())
+			m.CloseBoth()
+			m.Join(rd)
+		},
+		Final: func(m *Sim, x *Exec) { generalVerdicts(m, x, false) },
+	}
+}
+
 func staleExpiryScenario(a, b epCfg, withY bool) *Scenario {
 	return &Scenario{
 		Name:    "stale-expiry",
